@@ -224,6 +224,25 @@ func c15Init() {
 			t := igAt(r, 1)["table"].(map[string]any)
 			t["index"] = append(t["index"].([]any), []any{c15Marker + "idx"})
 		})
+		// a file with sources only (integrations come through the dashboard
+		// later): the source name is spliced into SQL as soon as a submitted
+		// integration refers to it
+		for vi, hostile := range []string{c15Marker + "srcname", "s0 " + c15Marker, "s0'; drop table shovel.task_updates; -- MRK"} {
+			var t2 any
+			json.Unmarshal(cj, &t2)
+			root := t2.(map[string]any)
+			ig0 := root["integrations"].([]any)[0].(map[string]any)
+			for _, s := range ig0["sources"].([]any) {
+				s.(map[string]any)["name"] = hostile
+			}
+			for _, s := range root["eth_sources"].([]any) {
+				s.(map[string]any)["name"] = hostile
+			}
+			root["integrations"] = []any{}
+			b, _ := json.Marshal(root)
+			sb, _ := json.Marshal(ig0)
+			c15Cases = append(c15Cases, &C15Case{Path: "file", Where: fmt.Sprintf("eth_sources.0.name in a file without integrations + dashboard integration referring to it (%d)", vi), Config: b, Submit: sb})
+		}
 		// dashboard path: each string position of each integration, submitted as a new integration
 		igs := tree.(map[string]any)["integrations"].([]any)
 		for ii := range igs {
@@ -358,6 +377,9 @@ func RunC15(t *testing.T, plan *Plan, st *core.Stream, extra Extra, keepLog bool
 			return res
 		}
 		plan.RawConfig = cs.Config
+		if len(cs.Submit) > 0 {
+			plan.C15Submit = cs.Submit
+		}
 	} else {
 		plan.C15Submit = cs.Submit
 	}
